@@ -110,7 +110,33 @@ def cmp_c12(case, got):
     return bad
 
 
+def cmp_c19(case, got):
+    k = case["kind"]
+    if got.get("error"):
+        return [("%s %s: %s" % (k, got.get("text", ""), got["error"]), "error:" + k)]
+    if k == "status":
+        e = case["expect"]
+        if got["d"] != e["d"] or got["v"] != e["v"]:
+            return [("wait status %#06x decodes to %s(%s), expected %s(%s)" % (case["raw"], got["d"], got["v"], e["d"], e["v"]),
+                     "status:" + e["d"])]
+        return []
+    bad = []
+    if got["n"] != case["expect"]:
+        bad.append(("%s %r gives OS signal %s, expected %s" % (k, got.get("text", case.get("n")), got["n"], case["expect"]), k))
+    if k == "display_first" and got.get("direct") != case["expect"]:
+        bad.append(("first-class signal %s maps to OS signal %s, expected %s" % (case["name"], got.get("direct"), case["expect"]), k))
+    return bad
+
+
 SPECS = {
+    "C19": dict(
+        module="Signals.tla", runner="signals", cmp=cmp_c19, nontrivial=lambda c: True,
+        cfgs=dict(quick=["Signals.cfg"], thorough=["Signals.cfg"]),
+        rule="every row of the table is a distinct case: 31 signals x 3 spellings x 3 letter cases, 13 control names x 3 cases, display round trips, 256 exit codes, 31 signals x core bit",
+        exhaustive=True,
+        assumptions=["Linux signal numbering (1..31, the signals nix knows); real-time signals are outside the table",
+                     "the Windows control names are parsed on every platform, as the crate documents; Windows display forms are not exercised on this platform"],
+    ),
     "C12": dict(
         module="CliIgnoreFlags.tla", runner="cliflags", cmp=cmp_c12, nontrivial=lambda c: True,
         cfgs=dict(quick=["CliIgnoreFlags.cfg"], thorough=["CliIgnoreFlags.cfg"]),
